@@ -6,6 +6,7 @@ import (
 	"encoding/binary"
 	"fmt"
 	"hash/crc32"
+	"io"
 	"math/big"
 	"reflect"
 	"time"
@@ -70,15 +71,27 @@ func read(buf *bytes.Reader, v interface{}, size uint16) error {
 		}
 		*v = time.Unix(tS, int64(tNs)).UTC()
 	case *[]Message:
-		for s := buf.Len() - int(size); buf.Len() > s; {
+		// the items have to fill the declared size exactly, so they are read from a reader limited to it
+		n := int(size)
+		if n > buf.Len() {
+			n = buf.Len() // short input: read what is there and report the missing rest below
+		}
+		d := make([]byte, n)
+		if _, err := io.ReadFull(buf, d); err != nil {
+			return err
+		}
+		for sub := bytes.NewReader(d); sub.Len() > 0; {
 			var (
 				m   *Message
 				err error
 			)
-			if m, err = readMessage(buf); err != nil {
+			if m, err = readMessage(sub); err != nil {
 				return fmt.Errorf("unexpected error reading data frame %d: %w", len(*v)+1, err)
 			}
 			*v = append(*v, *m)
+		}
+		if n < int(size) {
+			return fmt.Errorf("unexpected error reading data frame %d: %w", len(*v)+1, io.EOF)
 		}
 	}
 	return nil
